@@ -205,7 +205,7 @@ AAA == <<65, 65, 65>>
 ZZZ == <<90, 90, 90>>
 OZZ == <<79, 90, 90>>
 PAA == <<80, 65, 65>>
-StrideSchemes ==
+PublishedStrideSchemes ==
   << <<\h380000, 1024, 32, <<70, 45, 66>>, AAA, ZZZ>>,      \* F-B
      <<\h388000, 1024, 32, <<70, 45, 73>>, AAA, ZZZ>>,      \* F-I
      <<\h390000, 1024, 32, <<70, 45, 71>>, AAA, ZZZ>>,      \* F-G
@@ -236,6 +236,8 @@ StrideSchemes ==
      <<\hC00001, 676, 26,  <<67, 45, 70>>, AAA, ZZZ>>,      \* C-F
      <<\hC044A9, 676, 26,  <<67, 45, 71>>, AAA, ZZZ>>,      \* C-G
      <<\hE01041, 4096, 64, <<76, 86, 45>>, AAA, ZZZ>> >>    \* LV-
+(* (a separate name so that MC_Registration can substitute a mutant) *)
+StrideSchemes == PublishedStrideSchemes
 NStride == Len(StrideSchemes)
 SOfs(m, l) == FIdx(l[1]) * m[2] + FIdx(l[2]) * m[3] + FIdx(l[3])
 SEnd(m) == m[1] + SOfs(m, m[6]) - SOfs(m, m[5])
@@ -255,12 +257,17 @@ AddrOfStride(reg) == LET m == StrideSchemes[StrideIndexOfReg(reg)]
 StrideDecodable(m, h) ==
   LET o == h - m[1] + SOfs(m, m[5]) IN
   o \div m[2] < 26 /\ (o % m[2]) \div m[3] < 26 /\ o % m[3] < 26
+(* <<first, last>> address of every scheme, computed once (TLC caches a     *)
+(* constant sequence, not a function constructor)                          *)
+RECURSIVE BuildStrideRanges(_)
+BuildStrideRanges(i) == IF i > NStride THEN <<>>
+                        ELSE << <<StrideSchemes[i][1], SEnd(StrideSchemes[i])>> >> \o BuildStrideRanges(i + 1)
+StrideRanges == BuildStrideRanges(1)
 RECURSIVE StrideScan(_, _)
 StrideScan(h, i) ==      \* first scheme whose range holds h on a letter triple
   IF i > NStride THEN 0
-  ELSE LET m == StrideSchemes[i] IN
-       IF h >= m[1] /\ h <= SEnd(m) /\ StrideDecodable(m, h) THEN i
-       ELSE StrideScan(h, i + 1)
+  ELSE IF h >= StrideRanges[i][1] /\ h <= StrideRanges[i][2] /\ StrideDecodable(StrideSchemes[i], h) THEN i
+  ELSE StrideScan(h, i + 1)
 (* all stride schemes live in these three windows (cheap pre-filter)       *)
 StrideWindow(h) == \/ h >= \h380000 /\ h < \h800000
                    \/ h >= \hC00000 /\ h < \hC10000
@@ -416,4 +423,18 @@ InICAOBlockOfMark(reg, h) ==
   LET m == MarkOf(reg) IN
   /\ m # "" /\ MarkState[m] \in DOMAIN ICAOBlock
   /\ h >= ICAOBlock[MarkState[m]][1] /\ h <= ICAOBlock[MarkState[m]][2]
+
+---------------------------------------------------------------------------
+(* Addresses at which some rule of this module changes (first address of a *)
+(* scheme or block, first address after it).  MC_Registration visits every *)
+(* chunk that holds one, Gen_Registration turns them into the intervals    *)
+(* that the quick tier samples densely.                                    *)
+Edges ==
+  {NBase + k * NSize(4) : k \in 0..9}
+  \cup {JABase + k * JAOuter : k \in 0..10} \cup {JABase + k * JAOuter + 10 * JAInner : k \in 0..9}
+  \cup {HLRanges[i][3] : i \in 1..3} \cup {HLRanges[i][3] + BCD(HLRanges[i][2]) - BCD(HLRanges[i][1]) + 1 : i \in 1..3}
+  \cup {NumericSchemes[i].start : i \in 1..2}
+  \cup {NumericSchemes[i].start + NumericSchemes[i].count : i \in 1..2}
+  \cup {StrideSchemes[i][1] : i \in 1..NStride} \cup {SEnd(StrideSchemes[i]) + 1 : i \in 1..NStride}
+  \cup UNION {{ICAOBlock[s][1], ICAOBlock[s][2] + 1} : s \in DOMAIN ICAOBlock}
 =============================================================================
